@@ -35,6 +35,12 @@ def programs(thorough: bool) -> list[dict]:
         for mr in (0, 1, 2):
             for sc in SCRIPTS:
                 out.append(node(fl, mr, sc))
+    # a task with a custom retry_for=(ValueError,): ValueError and RetryError are retriable, other errors are not
+    custom = [node("r", 1, sc) for sc in (["ret", 1], ["retry_until", 2, 1], ["vretry_until", 2, 1], ["retry_until", 3, 1],
+                                          ["vretry_until", 3, 1], ["always_retry"], ["fail", "x"])]
+    out += custom
+    for k in custom[1:5]:
+        out.append(node("p", 0, ["ret", 1], [k]))
     kids1 = [node(fl, mr, sc) for fl in "pd" for mr, sc in CHILD_TYPES]
     roots = [(fl, mr, sc) for fl in "pd" for mr, sc in ROOT_INNER]
     for fl, mr, sc in roots:
@@ -146,7 +152,9 @@ def expected_counts(spec: dict) -> dict | None:
         return {"n": 1, "ok": False}
     if sc[0] == "always_retry":
         return {"n": mr + 1, "ok": False}
-    if sc[0] == "retry_until":
+    if sc[0] in ("retry_until", "vretry_until"):
+        if sc[0] == "vretry_until" and spec.get("fl") != "r":
+            return None  # ValueError is only retriable where retry_for lists it
         k = sc[1]
         return {"n": k, "ok": True} if k <= mr + 1 else {"n": mr + 1, "ok": False}
     return None
@@ -217,7 +225,7 @@ def _fails(n: dict) -> bool:
     sc, mr = n["sc"], n["mr"]
     if sc[0] in ("fail", "always_retry"):
         return True
-    if sc[0] == "retry_until" and sc[1] > mr + 1:
+    if sc[0] in ("retry_until", "vretry_until") and sc[1] > mr + 1:
         return True
     return any(_fails(k) for k in (n.get("kids") or []))
 
